@@ -1,4 +1,5 @@
 import Pko.Drv.SysCommon
+import Pko.Drv.C02Judge
 /-! Property monitors for the controller-level ("sys") stream.
 
 Each monitor walks the schedule.  The state BEFORE a step is obtained by running the model on the
@@ -83,7 +84,7 @@ def phaseIdxOfKey (fs : List (Nat × ObjFacts)) (ks : String) : Option Nat :=
 def quiet (st : JStep) : Bool := (st.env.getD []).isEmpty && (st.setEnv.getD []).isEmpty
 
 inductive Which where
-  | c03 | c04 | c05 | c06 | c09 | c11 | c15
+  | c02 | c03 | c04 | c05 | c06 | c09 | c11 | c15
   deriving DecidableEq
 
 /-- C11 on the controller-level stream: a namespaced ObjectSet / same-cluster ObjectSetPhase never
@@ -109,6 +110,23 @@ def judgePhaseDeletes (scn : SysCommon.Scn) (cfg : Cfg) (st : JStep) (pre : Sys)
         match pre.w.store.get (keyOf cfg ow o) with
         | some c => if !isController cfg.st (ow.ref true) c then return some s!"bad delete-of-uncontrolled-object {e}"
         | none => return some s!"bad delete-of-absent-object {e}"
+  return none
+
+/-- C02 for a pass of the ObjectSetPhase controller. -/
+def judgePhaseRevisions (scn : SysCommon.Scn) (cfg : Cfg) (st : JStep) (pre : Sys) (out : StepOut) : Option String := Id.run do
+  let some p := pre.w.phases st.set | return none
+  if !quiet st then return none
+  let ow := Pko.Model.Remote.phaseOwner p (setKindOf scn) (nsOf scn)
+  let keys := p.objs.map (keyOf cfg ow)
+  if keys.eraseDups.length != keys.length then return none
+  for e in out.events do
+    if eventVerb e == "A" then
+      match p.objs.find? (fun o => keyStr (keyOf cfg ow o) == eventKey e) with
+      | none => pure ()
+      | some o =>
+        match Pko.Drv.C02Judge.judgeApply cfg.st ow (some ow.rev) (pre.w.store.get (keyOf cfg ow o)) e with
+        | some b => return some b
+        | none => pure ()
   return none
 
 /-- C15 for a pass of the ObjectSetPhase controller on phase object `name`. -/
@@ -143,6 +161,20 @@ def judge (which : Which) (scn : SysCommon.Scn) (cfg : Cfg) (st : JStep) (pre : 
   let dupKeys := (fs.map (·.2.key)).eraseDups.length != fs.length
   match which with
   | .c11 => return judgeNs scn out
+  | .c02 =>
+    -- every apply of the pass, judged against the object's state before the pass
+    if !quiet st || dupKeys then return none
+    for e in out.events do
+      if eventVerb e == "A" then
+        match fs.find? (fun f => keyStr f.2.key == eventKey e) with
+        | none => pure ()
+        | some f =>
+          -- the revision may be assigned in this very pass: only a revision known before the pass is compared
+          let ownRev := if o.revision == 0 then none else some o.revision
+          match Pko.Drv.C02Judge.judgeApply cfg.st o.owner ownRev f.2.cur e with
+          | some b => return some b
+          | none => pure ()
+    return none
   | .c05 =>
     -- controller level: every delete hits an object the ObjectSet controlled before the pass, an
     -- orphaned ObjectSet deletes nothing (neither objects nor its delegated phase objects)
@@ -345,11 +377,12 @@ def monitor (which : Which) (s : SysCommon.Scn) (out : String) : String := Id.ru
         match judge which s cfg st sys so with
         | some b => return s!"{b} step={i}"
         | none => pure ()
-    if st.op == "phase" && (which == .c15 || which == .c11 || which == .c05) then
+    if st.op == "phase" && (which == .c15 || which == .c11 || which == .c05 || which == .c02) then
       match parseStep tok with
       | none => return s!"bad unparsable-step {i} {tok.take 40}"
       | some so =>
         let r := if which == .c11 then judgeNs s so
+                 else if which == .c02 then judgePhaseRevisions s (phaseCfgOf s) st sys so
                  else if which == .c05 then judgePhaseDeletes s (phaseCfgOf s) st sys so
                  else judgePhaseStep s (phaseCfgOf s) st sys so
         match r with
